@@ -1,17 +1,86 @@
 """C14 - containers stay memory-safe and shape-consistent under any operation history.
 
-(M)   Containers.tla, one TLC run per container family (dvector, uivector, ivector, strvector, matrix, tensor,
-      dvectorlist): exhaustive BFS over every API call of the alphabet with small constants (pool 2), checking the
-      state invariants Shape / TypeOK / DeadIsEmpty / KindsOff and the action laws GuardLaw (no call on a dead
-      container), FrameLaw (a call changes only what it declares: mutating a copy never changes the source),
-      OorLaw, CopyLaw, GrowthLaw (old cells kept, new cells zero), ShrinkLaw.
-(GEN) the same module in simulate mode (GenSpec): histories of 40 calls over a pool of 4 per kind, operand lengths
-      drawn shorter / equal / longer / zero around the current dimension, exported through CONSTRAINT Emit.
-(C)   c14_replay executes every history on the ASan/UBSan build, one child process per history, comparing
-      liveness, dims and every cell with the spec's post-state after every call, checking that no two live
-      containers share an owned pointer, and classifying sanitizer reports / aborts / signals by call.
+(M)   Containers.tla (+ ContainerLaws.tla), one TLC run per container family (dvector, uivector, ivector, strvector, matrix,
+      tensor, dvectorlist): exhaustive BFS over every API call of the alphabet with small constants (pool 2), checking the
+      state invariants Shape / TypeOK / DeadIsEmpty / KindsOff / Theorems (append-then-delete is the identity, the sort
+      representative satisfies and is fixed by the sort contract, a tie-free sort has exactly one admissible result) and the
+      action laws GuardLaw (no call on a dead container), FrameLaw (a call changes only what it declares: mutating a copy never
+      changes the source), OorLaw, ReadOnlyLaw, CopyLaw, GrowthLaw (old cells kept, new cells zero), ShrinkLaw, SortLaw,
+      ExtendLaw, ResizeLaw.
+(GEN) the same module in simulate mode (GenSpec): histories of 40 calls over a pool of 4 per kind, operand lengths drawn
+      shorter / equal / longer / zero around the current dimension, exported through CONSTRAINT Emit together with the input
+      classes (INPUT-CLASSES.md) each call belongs to.  Three generator modes: small dimensions (<= 5/6), block-size mode
+      (MaxDim 66: sizes at 4/8/16/32/64 and one off, operands one off the current dimension), and the self-copy mode.
+(C)   c14_replay executes every history twice - on the ASan/UBSan build and on the plain gcc build under glibc's
+      MALLOC_PERTURB_ (freed addresses are handed out again at once: address reuse, stale memory is never zero) - one child
+      process per history, comparing liveness, dims and every cell with the spec's post-state after every call, checking that
+      no two live containers share an owned pointer, and classifying sanitizer reports / aborts / signals by call.  Cell
+      values are CODES in the specification; the harness maps them through a strictly increasing palette (identity; "huge":
+      2^31+5, 2^32+1, INT_MAX ...; "frac": tenths) chosen per history.
+(T)   every sort call (MatrixSort, MatrixReverseSort, DVectorSort, SortUIVector) additionally records the container as the
+      library left it; TLC validates these observations against the sort contracts (TraceContainers.tla): the order among
+      equal keys is free, so the harness cannot compare cell by cell there.
+
+Clause table (statement of C14 -> what decides it -> what carries it)
+  "any sequence of valid operations ... create, resize, copy, append rows or columns shorter / equal / longer, delete rows /
+   columns, set / get, extend, sort, remove"
+        -> the alphabet: one action of Containers.tla per public call (table below); Next / GenNext; GenRefinesNext
+        -> O-lines of the replay script; coverage.alphabet, coverage.op_mix, coverage.size_relations (every call executed at least once)
+  "never reads or writes outside the memory it owns"
+        -> AddressSanitizer / UBSan on the san build, per call (signature asan:<kind>:<function>); on the plain build a crash
+           or a wrong cell of ANY pool slot after the call (compare_all covers all slots, not only the touched ones)
+        -> result line of the history (res = san / signal / mismatch), the child's stderr
+  "never uses or frees memory it has already released"
+        -> ASan use-after-free / double-free / bad-free, also while deleting every remaining container at the end of a history;
+           alias_check (no pointer owned by two live containers); plain build with MALLOC_PERTURB_ (stale reads differ from the model)
+        -> result line (res = san / alias / mismatch), step = call or cleanup
+  "leaves the container with the row / column / size counts ... the operation defines"
+        -> post-state of the action (E-lines: liveness, dims), invariants Shape / TypeOK, laws ResizeLaw / GrowthLaw / ShrinkLaw / ExtendLaw
+        -> compare_all after every call
+  "... and cell contents (old cells preserved, newly exposed cells zero)"
+        -> GrowthLaw, ShrinkLaw, ResizeLaw, CopyLaw, SortLaw (+ Theorems); E-lines carry every cell as a value code
+        -> compare_all through the palette; SortMx / SortVec observation events judged by TLC (SortContract / VecSortContract)
+  "out-of-range accessors fail safely (an error, the documented sentinel, or a clean abort)"
+        -> the *Oor actions + OorLaw (state unchanged); indices just past the end, one further, mid-range (MaxDim+8, MaxDim+65) and far
+           ((size_t)-1, 2^63, 2^63+1, 2^32)
+        -> the call runs in a grandchild: returns with the state unchanged (NULL for getMatrixRow/Column), or SIGABRT without a sanitizer report
+  "copies are deep: mutating a copy never changes the source"
+        -> FrameLaw + CopyLaw; every later call on the copy is followed by a comparison of ALL slots, the source included; alias_check
+  quantifier: "length 40, pool of 4 per kind, operand lengths around the current dimensions (shorter / equal / longer / zero)"
+        -> GenSpec: Depth = 40, Pool of 4, AroundLen; coverage.size_relations
+
+Input classes (INPUT-CLASSES.md; measured per executed call in coverage.classes, required ones are topped up until reached)
+  K1 shape relations        emitted (was: by chance, uncounted): tall / wide / square / n=p+-1 / single row / single column / zero rows / zero columns / empty,
+                            tensor layers of different shapes, delete at the first / last / only index, append onto a matrix that has rows but no
+                            column (columns but no row)
+  K2 block boundaries       NEW: sizes 3..5, 7..9, 15..17, 31..33, 63..65 for vectors, matrix rows / columns, list elements (block-size generator mode,
+                            MaxDim 66), strings of 255 / 256 / 257 characters, out-of-range indices in mid range (MaxDim+8, MaxDim+65)
+  K3 location               outside the quantifier (container calls do no arithmetic on the cells)
+  K4 magnitude              NEW: "huge" palette (1, 2^31+5, 2^32+1 as double / size_t; 65537, INT_MAX as int; signed), far indices (size_t)-1, 2^63, 2^63+1, 2^32
+  K5 non-representable      NEW: "frac" palette (0.1, 0.2, 0.3)
+  K6 processor counts       not applicable (no container routine reaches an MT_* kernel)
+  K7 in-process histories   40 calls per process with slots deleted and re-created, append after resize to 0, Extend(a, a); NEW: the operand is a member of
+                            the destination (own string / layer / element), the plain build where a freed address is handed out again at once
+                            (measured: coverage.plain_build), self-copies (EXTRA only)
+  K8 degenerate             NEW: sort keys tied between identical and between different rows; duplicate rows, empty strings, constant vectors
+  K9 missing-value code     outside the statement (not mentioned by C14)
+  K10 label alphabets       not applicable
+
+Operation alphabet against the public headers (vector.h, matrix.h, tensor.h, list.h)
+  modelled (action of Containers.tla): New/init/Del/Resize/Append/RemoveAt/Copy/Extend/set/get/HasValue/IndexOf/Set(fill)/Sort/Print
+      of dvector, uivector, ivector (each where the header has it); init/New/Del/Resize/Append/AppendInt/AppendDouble/setStr/getStr/
+      Extend/Print of strvector and SplitString, StrVectorAppend / setStr also with one of the vector's OWN strings (the pointer getStr
+      returns) as the argument; init/New/Del/Resize/MatrixSet/MatrixCopy/set/get/getMatrixRow/getMatrixColumn/
+      MatrixAppendRow/Col/UIRow/UICol/MatrixDeleteRowAt/ColAt/MatrixSort/MatrixReverseSort/MatrixColumnMinMax/ValInMatrix/PrintMatrix;
+      init/New/NewTensorMatrix/AddTensorMatrix/Del/set/get/TensorAppendMatrix (operand built for the call or one of the tensor's own
+      layers)/TensorAppendColumn/TensorSet/TensorCopy/PrintTensor; init/New(0)/New(n)+fill/Append (operand built or an own element)/Del
+      of dvectorlist.  With "self": DVectorCopy / MatrixCopy / TensorCopy of a container onto itself (identity; EXTRA findings only).
+  not modelled, with the reason: coverage.excluded_ops (numeric kernels of C11/C15 - dot products, norms, means, inversions,
+      decompositions; TensorAppendRow / TensorAppendMatrixAt / DVectNorm (contract unclear); MatrixCheck / FindNan / MatrixInitRandom*
+      (no shape contract, random); MatrixGetMax/MinValueIndex (skip row 0, tie rule undocumented, read data[0][0] of an empty matrix);
+      Trim (string helper, exercised through SplitString)).
 """
-import collections, hashlib, json, os, re, shutil
+import collections, copy, hashlib, json, os, re, shutil
 from concurrent.futures import ThreadPoolExecutor
 from vf import build, tlc
 from vf import run as hrun
@@ -19,21 +88,42 @@ from vf.core import InfraError
 
 LEVEL = "model_checking"
 READY = True
-TECHNIQUE = ("TLC model checking of Containers.tla (shadow state machine of dvector/uivector/ivector/strvector/matrix/tensor/dvectorlist, "
-             "one action per API call; shape invariants and guard/frame/copy/growth/shrink laws) + replay of TLC-simulated operation histories "
-             "against the ASan/UBSan build with the spec's post-state compared after every call")
-LEVEL_TEXT = ("The shadow model is checked exhaustively by TLC (breadth-first, every call of the alphabet, pool of 2, small dimensions and values, "
-              "bounded depth) for shape consistency, guards on dead containers, framing (deep copies) and the growth/shrink laws; the real library "
-              "is bound to it by replaying TLC-generated histories (length 40, pool of 4 per kind, operand lengths around the current dimensions) "
-              "under AddressSanitizer/UBSan with liveness, dimensions, every cell and pointer ownership compared with the model after every call.")
+TECHNIQUE = ("TLC model checking of Containers.tla / ContainerLaws.tla (shadow state machine of dvector/uivector/ivector/strvector/matrix/tensor/dvectorlist, "
+             "one action per public API call incl. sort, reverse sort, column min/max, SplitString, Print*, self- and member-aliased operands (own string / layer / element); shape invariants, "
+             "algebraic theorems and guard/frame/read-only/copy/growth/shrink/sort/extend/resize laws) + replay of TLC-simulated operation histories (small, "
+             "block-size and self-copy generator modes; value codes mapped to small / huge / fractional cell values) against the ASan/UBSan build and against "
+             "the plain build under MALLOC_PERTURB_ (address reuse) with the spec's post-state compared after every call + TLC trace validation "
+             "(TraceContainers.tla) of every observed sort result against the sort contract")
+LEVEL_TEXT = ("The shadow model is checked exhaustively by TLC (breadth-first, every call of the alphabet, pool of 2, small dimensions and signed values, "
+              "bounded depth) for shape consistency, guards on dead containers, framing (deep copies), the growth/shrink/sort/extend/resize laws and the "
+              "algebraic theorems; the real library is bound to it by replaying TLC-generated histories (length 40, pool of 4 per kind, operand lengths "
+              "around the current dimensions, dimensions up to 66 with sizes around 4/8/16/32/64, cell values up to 2^32+1 / INT_MAX and non-representable "
+              "tenths, strings of 255..257 characters) under AddressSanitizer/UBSan and on the plain build with freed addresses reused, with liveness, "
+              "dimensions, every cell and pointer ownership compared with the model after every call, and every observed sort result validated by TLC.")
 LEVEL_NOTE = ("Model checking covers the specification within the stated bounds; the implementation is bound to it by sampled histories (counts in "
               "the evidence), not exhaustively. Trusts TLC, ASan/UBSan as the memory monitor, and the harness's comparison code. Operations whose "
-              "contract is ambiguous are outside the alphabet and listed in coverage.excluded_ops.")
+              "contract is ambiguous are outside the alphabet and listed in coverage.excluded_ops. Input classes of INPUT-CLASSES.md: K1 K2 K4 K5 K7 K8 are "
+              "emitted and counted (coverage.classes); outside the quantifier of C14 and therefore not generated: K3 (location / conditioning: no arithmetic "
+              "in container calls), K6 (no container routine reaches an MT_* kernel or spawns workers), K9 (the property does not mention the missing-value "
+              "code; MatrixColumnMinMax's MISSING skip belongs to C10), K10 (no label alphabets). Self-copies (X.Copy(x, x)), the return values of "
+              "ValInMatrix / MatrixColumnMinMax and the tokenisation of SplitString are modelled exactly but lie outside the statement: deviations are "
+              "EXTRA findings, never verdicts. Calls on a deleted container, deletes / sorts with an invalid index and setStr/getStr out of range are not valid "
+              "operations and stay excluded.")
 
-JOBS = max(1, int(os.environ.get("VERIF_JOBS", "16") or 16))
+
+def _jobs():
+    if os.environ.get("VERIF_JOBS"):
+        return max(1, int(os.environ["VERIF_JOBS"]))
+    if os.environ.get("VERIF_WORKERS"):
+        return max(4, 2 * int(os.environ["VERIF_WORKERS"]))
+    return 16
+
+
+JOBS = _jobs()
 ALL_KINDS = ["dv", "uv", "iv", "sv", "mx", "tn", "dl"]
 KIDX = {k: i for i, k in enumerate(ALL_KINDS)}
 UNSET = "<unset>"
+LONGSTR = {"<L255>": "x" * 255, "<L256>": "y" * 256, "<L257>": "z" * 257}
 
 EXCLUDED_OPS = [
     dict(op="TensorAppendRow", why="its guard compares the row length with the row COUNT of the layer and aborts on what looks like valid input; contract unclear (observation, not judged)"),
@@ -44,27 +134,30 @@ EXCLUDED_OPS = [
     dict(op="any call on a tensor that still has NULL layers from NewTensor(n), except NewTensorMatrix", why="NULL layers are dereferenced by design until created"),
     dict(op="NewDVectorList(n > 0) WITHOUT filling the slots", why="leaves n uninitialised pointers; Del would free garbage by design. The composite 'NewDVectorList(n) + NewDVector on every slot' (the only valid use) IS in the alphabet as NewDVectorListFilled"),
     dict(op="DVectNorm with a shorter destination", why="writes past the destination by its own size test; arithmetic kernel, contract ambiguous"),
-    dict(op="MatrixDeleteRowAt / MatrixDeleteColAt with an invalid index or on an empty dimension", why="not an accessor; writes out of bounds (observation), outside 'valid operations'"),
+    dict(op="MatrixDeleteRowAt / MatrixDeleteColAt / MatrixSort / MatrixReverseSort with an invalid index or on an empty dimension", why="not accessors; read / write out of bounds (observation), outside 'valid operations'"),
     dict(op="setStr / getStr out of range", why="no bounds check and none documented; the property's accessor clause is anchored on the numeric vectors, matrix and tensor"),
-    dict(op="getStr / StrVectorAppend / StrVectorExtend on a slot of NewStrVector(n) that was never set", why="the slot is one uninitialised byte; the test suite sets every slot first"),
-    dict(op="MatrixCopy / DVectorCopy / TensorCopy with source == destination", why="self-copy has no documented meaning"),
-    dict(op="DVectorDVectorDiff/Sum, DVectorMedian/Mean/SDEV/MinMax, DvectorModule, MatrixTranspose and the other arithmetic routines", why="numeric kernels, covered by C11/C15; not container-shape operations"),
+    dict(op="getStr / StrVectorAppend / StrVectorExtend / PrintStrVector / SplitString on a slot of NewStrVector(n) that was never set", why="the slot is one uninitialised byte; the test suite sets every slot first"),
+    dict(op="DVectorDVectorDiff/Sum, DVectorMedian/Mean/SDEV/MinMax, DvectorModule, DVectorDVectorDotProd, the Matrix*DotProduct family, MatrixTranspose, inversions, "
+            "decompositions, column statistics, Matrix2*Matrix, MeanCenteredTensor, TensorColAverage/SDEV, TensorTranspose, the tensor products", why="numeric kernels, covered by C11/C15; not container-shape operations"),
+    dict(op="MatrixGetMaxValueIndex / MatrixGetMinValueIndex", why="skip row 0 of every column but the first, undocumented tie rule (EPSILON), read data[0][0] of an empty matrix: contract unclear"),
+    dict(op="MatrixCheck, FindNan, MatrixInitRandomInt, MatrixInitRandomFloat", why="no shape contract (cells stay finite here) / random content"),
     dict(op="DVectorSort / SortUIVector on an EMPTY vector in generated histories", why="a vector made by init* has data == NULL and qsort(NULL, 0, ..) trips UBSan's nonnull-attribute check although no memory is touched; the model keeps the call, the generator sorts non-empty vectors only"),
-    dict(op="SplitString, Trim, Print*", why="string parsing / printing, no container contract beyond StrVectorAppend"),
+    dict(op="Trim", why="string helper; exercised through SplitString only"),
 ]
 
 # ------------------------------------------------------------------------------------------------ (M)
-# group -> (Kinds, MaxDim, Vals, Depth [operations], workers, actions that must fire)
-VEC_ACTS = {"dv": ["VNew", "VInit", "VDel", "VResize", "VAppend", "VRemoveAt", "VCopy", "VExtend", "VSet", "VSetOor", "VGet", "VGetOor", "VHas", "VFill", "VSort"],
-            "uv": ["VNew", "VInit", "VDel", "VResize", "VAppend", "VRemoveAt", "VExtend", "VSet", "VSetOor", "VGet", "VGetOor", "VHas", "VIndexOf", "VFill", "VSort"],
-            "iv": ["VNew", "VInit", "VDel", "VAppend", "VRemoveAt", "VExtend", "VSet", "VSetOor", "VGet", "VGetOor", "VHas", "VFill"]}
+# group -> (Kinds switches, MaxDim, Vals, Depth [operations], workers)
+VEC_ACTS = {"dv": ["VNew", "VInit", "VDel", "VResize", "VAppend", "VRemoveAt", "VCopy", "VExtend", "VSet", "VSetOor", "VGet", "VGetOor", "VHas", "VFill", "VSort", "VPrint"],
+            "uv": ["VNew", "VInit", "VDel", "VResize", "VAppend", "VRemoveAt", "VExtend", "VSet", "VSetOor", "VGet", "VGetOor", "VHas", "VIndexOf", "VFill", "VSort", "VPrint"],
+            "iv": ["VNew", "VInit", "VDel", "VAppend", "VRemoveAt", "VExtend", "VSet", "VSetOor", "VGet", "VGetOor", "VHas", "VFill", "VPrint"]}
 GROUP_PREFIX = {"sv": "Sv", "mx": "Mx", "tn": "Tn", "dl": "Dl"}
-MC_QUICK = [("dv", 3, [0, 1, 2], 6, 2), ("uv", 3, [0, 1, 2], 6, 2), ("iv", 3, [0, 1, 2], 6, 2), ("sv", 2, [0, 1, 2], 6, 2),
-            ("dl", 2, [0, 1, 2], 6, 2), ("mx", 2, [0, 1, 2], 4, 4), ("tn", 2, [0, 1], 4, 4)]
-MC_THOROUGH = [("dv", 4, [0, 1, 2], 8, 3), ("uv", 4, [0, 1, 2], 8, 3), ("iv", 4, [0, 1, 2], 8, 3), ("sv", 3, [0, 1, 2], 6, 3),
-               ("dl", 3, [0, 1, 2], 5, 3), ("mx", 2, [0, 1, 2], 6, 8), ("tn", 2, [0, 1, 2], 4, 8)]
-INVARIANTS = ["Shape", "TypeOK", "DeadIsEmpty", "KindsOff", "DepthBound"]
-LAWS = ["GuardLaw", "FrameLaw", "OorLaw", "CopyLaw", "GrowthLaw", "ShrinkLaw"]
+MC_QUICK = [("dv", "dv", ["neg", "self"], 3, [0, 1], 6, 2), ("uv", "uv", [], 3, [0, 1, 2], 6, 2), ("iv", "iv", ["neg"], 3, [0, 1], 6, 2), ("sv", "sv", ["neg"], 2, [0, 1], 5, 2),
+            ("dl", "dl", [], 2, [0, 1, 2], 5, 2), ("mx", "mx", ["neg", "self"], 2, [0, 1], 4, 4), ("tn", "tn", ["self"], 2, [0, 1], 4, 4)]
+MC_THOROUGH = [("dv", "dv", ["neg", "self"], 4, [0, 1], 8, 3), ("uv", "uv", [], 4, [0, 1, 2], 8, 3), ("iv", "iv", ["neg"], 4, [0, 1], 8, 3), ("sv", "sv", ["neg", "long"], 3, [0, 1], 5, 3),
+               ("dl", "dl", ["neg"], 2, [0, 1], 8, 3), ("dl_shapes", "dl", [], 3, [0], 7, 2),      # values on lists of <= 2 vectors; shapes (lengths 0..3, zeros only) one level deeper
+               ("mx", "mx", ["neg", "self"], 2, [0, 1], 6, 8), ("tn", "tn", ["self"], 2, [0, 1, 2], 4, 8)]
+INVARIANTS = ["Shape", "TypeOK", "DeadIsEmpty", "KindsOff", "DepthBound", "Theorems"]
+LAWS = ["GuardLaw", "FrameLaw", "OorLaw", "ReadOnlyLaw", "CopyLaw", "GrowthLaw", "ShrinkLaw", "SortLaw", "ExtendLaw", "ResizeLaw"]
 
 
 def _kinds_cfg(kinds):
@@ -73,12 +166,11 @@ def _kinds_cfg(kinds):
 
 def model_check(ctx, rd):
     table = MC_QUICK if ctx.quick else MC_THOROUGH
-    all_actions = None
 
     def one(row):
-        g, maxdim, vals, depth, workers = row
-        cfg = tlc.write_cfg(os.path.join(rd, "MC_Containers_%s.cfg" % g), spec="Spec",
-                            constants=dict(Pool='{"a", "b"}', MaxDim=maxdim, Vals=set(vals), Kinds=_kinds_cfg([g]), Depth=depth),
+        lab, g, sw, maxdim, vals, depth, workers = row
+        cfg = tlc.write_cfg(os.path.join(rd, "MC_Containers_%s.cfg" % lab), spec="Spec",
+                            constants=dict(Pool='{"a", "b"}', MaxDim=maxdim, Vals=set(vals), Kinds=_kinds_cfg([g] + sw), Depth=depth),
                             invariants=INVARIANTS, properties=LAWS, view="View", deadlock=False)
         return tlc.run("Containers", cfg, workers=min(workers, JOBS), timeout=1700, xmx="6g")
 
@@ -86,9 +178,9 @@ def model_check(ctx, rd):
         results = list(ex.map(one, table))
     total = 0
     for row, r in zip(table, results):
-        g, maxdim, vals, depth, _ = row
-        ctx.add_tlc(r, "mc_%s" % g)
-        ctx.steps["mc_%s" % g]["coverage"] = {a: list(v) for a, v in r.coverage.items() if v[1] > 0}
+        lab, g, sw, maxdim, vals, depth, _ = row
+        ctx.add_tlc(r, "mc_%s" % lab)
+        ctx.steps["mc_%s" % lab]["coverage"] = {a: list(v) for a, v in r.coverage.items() if v[1] > 0}
         if not r.ok:
             # a counterexample of the model alone is never reported as a violation of the code (DESIGN section 4)
             raise InfraError("Containers.tla (%s): %s fails in the model itself:\n%s" % (g, r.violation, r.trace_text[:2500]))
@@ -100,22 +192,27 @@ def model_check(ctx, rd):
         dead = [a for a in must if r.coverage.get(a, (0, 0))[1] == 0]
         if dead:
             raise InfraError("vacuous model check (%s): actions never taken: %s" % (g, dead))
-        ctx.steps["mc_%s" % g].update(dict(MaxDim=maxdim, Vals=vals, depth_ops=depth, pool=2, search_depth=r.depth))
+        ctx.steps["mc_%s" % lab].update(dict(MaxDim=maxdim, Vals=vals, switches=sw, depth_ops=depth, pool=2, search_depth=r.depth))
         total += r.distinct
-        ctx.note("model %-2s: pool 2, dims<=%d, values %s, %d operations deep: %d distinct pool states, %d transitions, %.1fs - invariants and laws hold"
-                 % (g, maxdim, vals, depth, r.distinct, r.generated, r.wall))
+        ctx.note("model %-2s: pool 2, dims<=%d, values %s%s, %d operations deep: %d distinct pool states, %d transitions, %.1fs - invariants, theorems and laws hold"
+                 % (lab, maxdim, vals, " +" + "+".join(sw) if sw else "", depth, r.distinct, r.generated, r.wall))
     return total
 
 
 # ------------------------------------------------------------------------------------------------ (GEN)
-GEN_QUICK = [(ALL_KINDS, 120, 5), (["mx", "dv"], 60, 5), (["tn"], 50, 5), (["sv"], 30, 5), (["dv"], 10, 5), (["uv"], 10, 5), (["iv"], 10, 5), (["dl"], 10, 5)]
+# (Kinds incl. switches, histories, MaxDim, mode)   mode: "small" | "big" (K2 block sizes) | "self" (self-copies: EXTRA only)
+SW = ["neg", "long"]
+GEN_QUICK = [(ALL_KINDS + SW, 96, 5, "small"), (["mx", "dv"] + SW, 48, 5, "small"), (["tn"] + SW, 40, 5, "small"), (["sv"] + SW, 28, 5, "small"),
+             (["dv"] + SW, 10, 5, "small"), (["uv"] + SW, 10, 5, "small"), (["iv"] + SW, 10, 5, "small"), (["dl"] + SW, 10, 5, "small"),
+             (["dv", "uv", "iv"] + SW, 24, 66, "big"), (["mx", "dv"] + SW, 24, 66, "big"), (["mx"] + SW, 16, 66, "big"), (["tn"] + SW, 8, 34, "big"), (["sv", "dl"] + SW, 10, 66, "big"),
+             (["dv", "mx", "tn"] + SW + ["self"], 16, 5, "self")]
 
 
 def _family_of(op):
     """container family (Kinds value) whose generator emits the library call `op`"""
     for pre, fam in (("Tensor", "tn"), ("NewTensor", "tn"), ("DelTensor", "tn"), ("setTensor", "tn"), ("getTensor", "tn"),
                      ("Matrix", "mx"), ("NewMatrix", "mx"), ("DelMatrix", "mx"), ("ResizeMatrix", "mx"), ("initMatrix", "mx"), ("setMatrix", "mx"), ("getMatrix", "mx"),
-                     ("StrVector", "sv"), ("NewStrVector", "sv"), ("DelStrVector", "sv"), ("setStr", "sv"), ("getStr", "sv"),
+                     ("StrVector", "sv"), ("NewStrVector", "sv"), ("DelStrVector", "sv"), ("setStr", "sv"), ("getStr", "sv"), ("SplitString", "sv"),
                      ("DVectorList", "dl"), ("NewDVectorList", "dl"), ("DelDVectorList", "dl"),
                      ("UIVector", "uv"), ("NewUIVector", "uv"), ("DelUIVector", "uv"), ("setUIVector", "uv"), ("getUIVector", "uv"), ("SortUIVector", "uv"),
                      ("IVector", "iv"), ("NewIVector", "iv"), ("DelIVector", "iv"), ("setIVector", "iv"), ("getIVector", "iv"),
@@ -129,11 +226,15 @@ def _gen_plan(ctx):
     if ctx.quick:
         return list(GEN_QUICK)
     plan = []
-    for kinds, n, chunk in [(ALL_KINDS, 8000, 1000), (["mx", "dv"], 4000, 1000), (["tn"], 3000, 1000), (["sv"], 2000, 1000),
-                            (["dv"], 800, 800), (["uv"], 800, 800), (["iv"], 800, 800), (["dl"], 600, 600)]:
+    for kinds, n, chunk, dims, mode in [(ALL_KINDS, 7000, 1000, (5, 6), "small"), (["mx", "dv"], 3500, 700, (5, 6), "small"), (["tn"], 2800, 700, (5, 6), "small"),
+                                        (["sv"], 1800, 900, (5, 6), "small"), (["dv"], 800, 800, (5, 6), "small"), (["uv"], 800, 800, (5, 6), "small"),
+                                        (["iv"], 800, 800, (5, 6), "small"), (["dl"], 600, 600, (5, 6), "small"),
+                                        (["dv", "uv", "iv"], 1000, 250, (66, 40), "big"), (["mx", "dv"], 800, 100, (66, 36), "big"), (["mx"], 400, 100, (66, 34), "big"),
+                                        (["tn"], 240, 40, (34, 20), "big"), (["sv", "dl"], 400, 100, (66, 40), "big"), (ALL_KINDS, 600, 200, (66, 18), "big"),
+                                        (["dv", "mx", "tn", "self"], 300, 300, (5, 6), "self")]:
         i = 0
         while n > 0:
-            plan.append((kinds, min(chunk, n), 5 if i % 2 == 0 else 6))
+            plan.append((kinds + [k for k in SW if k not in kinds], min(chunk, n), dims[i % 2], mode))
             n -= chunk
             i += 1
     return plan
@@ -157,7 +258,7 @@ def gen_one(ctx, rd, i, kinds, num, maxdim):
 def refinement_run(ctx, rd):
     """simulated GenSpec behaviours checked against [][Next]_vars: the generator only produces steps of the model-checked relation"""
     cfg = tlc.write_cfg(os.path.join(rd, "REF_Containers.cfg"), spec="GenSpec",
-                        constants=dict(Pool='{"a", "b", "c"}', MaxDim=3, Vals={0, 1}, Kinds=_kinds_cfg(ALL_KINDS), Depth=40),
+                        constants=dict(Pool='{"a", "b", "c"}', MaxDim=3, Vals={0, 1}, Kinds=_kinds_cfg(ALL_KINDS + ["neg", "self", "long"]), Depth=40),
                         invariants=["Shape", "TypeOK", "DeadIsEmpty"], properties=["GenRefinesNext"] + LAWS, deadlock=False)
     r = tlc.run("Containers", cfg, workers=1, timeout=1500, simulate="num=%d" % (10 if ctx.quick else 100), depth=40, seed=ctx.seed & 0x7FFFFFFF, xmx="3g")
     if not r.ok:
@@ -178,39 +279,69 @@ def split_histories(emits):
             hs.append(cur)
         elif cur is None or lvl != prev + 1:
             raise InfraError("generator output out of order: level %s after %s (one successor per action expected)" % (lvl, prev))
-        cur.append(dict(op=rec["op"], post={k: v for k, v in rec["post"].items() if isinstance(v, dict)}))
+        cur.append(dict(op=rec["op"], cls=rec.get("cls") if isinstance(rec.get("cls"), list) else [],
+                        post={k: v for k, v in rec["post"].items() if isinstance(v, dict)}))
         prev = lvl
     return hs
 
 
+# ------------------------------------------------------------------------------------------------ palettes (value codes -> cell values)
+UI_MATRIX_OPS = {"MatrixAppendUIRow", "MatrixAppendUICol"}
+
+
+def palette_of(hid, steps, mode):
+    """deterministic per history: half small, a quarter huge, a quarter tenths; tenths need the double and the size_t reading of a code to
+    agree, so histories that push uivector operands into matrices take the huge palette instead"""
+    q = hid % 4
+    if q < 2:
+        return "small"
+    if q == 2:
+        return "huge"
+    return "huge" if any(s["op"]["name"] in UI_MATRIX_OPS for s in steps) else "frac"
+
+
 # ------------------------------------------------------------------------------------------------ script writer
-# argument layout per call: s slot, i int, V vector, S string id, F matrix cells, R returned int (in-range only), T returned string
+# argument layout per call: s slot, i int, V vector, S string id, W list of string ids, F matrix cells, R returned int (in-range only), T returned string
 VEC_LAYOUT = {"cNew": "x:s n:i", "cInit": "x:s", "cDel": "x:s", "cResize": "x:s n:i", "cAppend": "x:s v:i", "cRemoveAt": "x:s i:i", "cCopy": "src:s dst:s",
-              "cExtend": "a:s b:s y:s", "cSet": "x:s i:i v:i", "cGet": "x:s i:i ret:R", "cHas": "x:s v:i ret:R", "cIndexOf": "x:s v:i ret:R", "cFill": "x:s v:i", "cSort": "x:s"}
+              "cExtend": "a:s b:s y:s", "cSet": "x:s i:i v:i", "cGet": "x:s i:i ret:R", "cHas": "x:s v:i ret:R", "cIndexOf": "x:s v:i ret:R", "cFill": "x:s v:i", "cSort": "x:s",
+              "cPrint": "x:s"}
 VEC_NAMES = {
     "dv": dict(cNew="NewDVector", cInit="initDVector", cDel="DelDVector", cResize="DVectorResize", cAppend="DVectorAppend", cRemoveAt="DVectorRemoveAt", cCopy="DVectorCopy",
-               cExtend="DVectorExtend", cSet="setDVectorValue", cGet="getDVectorValue", cHas="DVectorHasValue", cFill="DVectorSet", cSort="DVectorSort"),
+               cExtend="DVectorExtend", cSet="setDVectorValue", cGet="getDVectorValue", cHas="DVectorHasValue", cFill="DVectorSet", cSort="DVectorSort", cPrint="PrintDVector"),
     "uv": dict(cNew="NewUIVector", cInit="initUIVector", cDel="DelUIVector", cResize="UIVectorResize", cAppend="UIVectorAppend", cRemoveAt="UIVectorRemoveAt",
-               cExtend="UIVectorExtend", cSet="setUIVectorValue", cGet="getUIVectorValue", cHas="UIVectorHasValue", cIndexOf="UIVectorIndexOf", cFill="UIVectorSet", cSort="SortUIVector"),
+               cExtend="UIVectorExtend", cSet="setUIVectorValue", cGet="getUIVectorValue", cHas="UIVectorHasValue", cIndexOf="UIVectorIndexOf", cFill="UIVectorSet", cSort="SortUIVector",
+               cPrint="PrintUIVector"),
     "iv": dict(cNew="NewIVector", cInit="initIVector", cDel="DelIVector", cAppend="IVectorAppend", cRemoveAt="IVectorRemoveAt", cExtend="IVectorExtend",
-               cSet="setIVectorValue", cGet="getIVectorValue", cHas="IVectorHasValue", cFill="IVectorSet"),
+               cSet="setIVectorValue", cGet="getIVectorValue", cHas="IVectorHasValue", cFill="IVectorSet", cPrint="PrintIVector"),
 }
 LAYOUT = {
     "initStrVector": "x:s", "NewStrVector": "x:s n:i", "DelStrVector": "x:s", "StrVectorResize": "x:s n:i", "StrVectorAppend": "x:s s:S", "StrVectorAppendInt": "x:s v:i",
-    "StrVectorAppendDouble": "x:s v:i", "setStr": "x:s i:i s:S", "getStr": "x:s i:i rets:T", "StrVectorExtend": "a:s b:s y:s",
+    "StrVectorAppendDouble": "x:s v:i", "setStr": "x:s i:i s:S", "getStr": "x:s i:i rets:T", "StrVectorExtend": "a:s b:s y:s", "PrintStrVector": "x:s",
+    "StrVectorAppend:own": "x:s k:i", "setStr:own": "x:s i:i k:i",
+    "SplitString": "x:s toks:W decor:i",
     "initMatrix": "x:s", "NewMatrix": "x:s r:i c:i", "DelMatrix": "x:s", "ResizeMatrix": "x:s r:i c:i", "MatrixSet": "x:s v:i", "MatrixCopy": "src:s dst:s",
     "setMatrixValue": "x:s i:i j:i v:i", "getMatrixValue": "x:s i:i j:i ret:R", "getMatrixRow": "x:s i:i y:s?", "getMatrixColumn": "x:s j:i y:s?",
     "MatrixAppendRow": "x:s vs:V", "MatrixAppendCol": "x:s vs:V", "MatrixAppendUIRow": "x:s vs:V", "MatrixAppendUICol": "x:s vs:V", "MatrixDeleteRowAt": "x:s k:i", "MatrixDeleteColAt": "x:s k:i",
+    "MatrixSort": "x:s j:i", "MatrixReverseSort": "x:s j:i", "MatrixColumnMinMax": "x:s j:i lo:R hi:R", "ValInMatrix": "x:s v:i ret:R", "PrintMatrix": "x:s",
     "initTensor": "x:s", "NewTensor": "x:s n:i", "NewTensorMatrix": "x:s k:i r:i c:i", "AddTensorMatrix": "x:s r:i c:i", "DelTensor": "x:s",
-    "setTensorValue": "x:s k:i i:i j:i v:i", "getTensorValue": "x:s k:i i:i j:i ret:R", "TensorAppendMatrix": "x:s r:i c:i f:F", "TensorAppendColumn": "x:s k:i vs:V",
-    "TensorSet": "x:s v:i", "TensorCopy": "src:s dst:s",
-    "initDVectorList": "x:s", "NewDVectorList": "x:s n:i", "NewDVectorListFilled": "x:s vss:L", "DVectorListAppend": "x:s vs:V", "DelDVectorList": "x:s",
+    "setTensorValue": "x:s k:i i:i j:i v:i", "getTensorValue": "x:s k:i i:i j:i ret:R", "TensorAppendMatrix": "x:s r:i c:i f:F", "TensorAppendMatrix:own": "x:s k:i",
+    "TensorAppendColumn": "x:s k:i vs:V", "TensorSet": "x:s v:i", "TensorCopy": "src:s dst:s", "PrintTensor": "x:s",
+    "initDVectorList": "x:s", "NewDVectorList": "x:s n:i", "NewDVectorListFilled": "x:s vss:L", "DVectorListAppend": "x:s vs:V", "DVectorListAppend:own": "x:s k:i", "DelDVectorList": "x:s",
 }
 for _k, _names in VEC_NAMES.items():
     for _call, _name in _names.items():
         LAYOUT[_name] = VEC_LAYOUT[_call]
 ALPHABET = sorted(LAYOUT)
 SLOT = {"a": 0, "b": 1, "c": 2, "d": 3}
+CREATES = {"x": {n for n in LAYOUT if n.startswith("New") or n.startswith("init")}, "y": {n for n in LAYOUT if n.endswith("Extend") or n in ("getMatrixRow", "getMatrixColumn")}}
+APPENDS = {n for n in LAYOUT if "Append" in n or n == "SplitString"}
+EXTRA_RETURN_OPS = {"ValInMatrix", "MatrixColumnMinMax"}       # queries outside the statement: the harness records a deviating return value as an extra
+SELF_COPY_OPS = {"DVectorCopy", "MatrixCopy", "TensorCopy"}     # X.Copy(x, x): modelled as the identity, outside the statement
+# calls whose operand is a member of the destination (StrVectorAppend:own, setStr:own, TensorAppendMatrix:own, DVectorListAppend:own) ARE judged:
+# each is a valid call on a valid argument (the pointer a valid accessor returned), and what the statement forbids - using memory the library
+# itself released during the call - does not depend on where the argument came from.  To demote one to an EXTRA finding add its name here.
+OUT_OF_STATEMENT_OPS = set()
+EXTRA_STATE_OPS = {"SplitString"}                              # tokenisation is string parsing, not a container clause: a wrong token list is an extra
 
 
 class Script:
@@ -237,8 +368,8 @@ class Script:
             out += row
         return out
 
-    def history(self, hid, steps):
-        self.lines.append("H %d" % hid)
+    def history(self, hid, steps, pal="small"):
+        self.lines.append("H %d %s" % (hid, pal))
         for n, st in enumerate(steps, 1):
             op = st["op"]
             a = op["a"]
@@ -256,6 +387,9 @@ class Script:
                 elif typ == "V":
                     v = a[key] if isinstance(a[key], list) else []
                     toks += [len(v)] + v
+                elif typ == "W":
+                    v = a[key] if isinstance(a[key], list) else []
+                    toks += [len(v)] + [self.sid(s) for s in v]
                 elif typ == "L":
                     vs = a[key] if isinstance(a[key], list) else []
                     toks.append(len(vs))
@@ -312,13 +446,14 @@ class Script:
                     self.lines.append(" ".join(str(t) for t in e))
 
     def text(self):
-        head = ["STR %d %s" % (i, s.encode().hex() or "-") for s, i in self.strs.items()]
+        head = ["STR %d %s" % (i, LONGSTR.get(s, s).encode().hex() or "-") for s, i in self.strs.items()]
         return "\n".join(head + self.lines) + "\n"
 
 
 # ------------------------------------------------------------------------------------------------ (C)
-LIBSRC = {"vector.c", "matrix.c", "tensor.c", "list.c"}
+LIBSRC = {"vector.c", "matrix.c", "tensor.c", "list.c", "memwrapper.c"}
 _RE_FRAME = re.compile(r"#\d+ 0x[0-9a-f]+ in (\w+) (?:\S*/)?([\w.-]+\.c):(\d+)")
+PLAIN_ENV = {"MALLOC_PERTURB_": "165"}     # glibc: fresh memory is filled with ~0xA5.., freed memory with 0xA5..: never zero, never the old content
 
 
 def san_kind(err):
@@ -360,12 +495,14 @@ def classify(res):
     sk = san_kind(err)
     if r == "san" or (sk and r in ("exit", "signal", "abort")):
         return sk or "asan:other", "sanitizer report %s %s" % (res.get("what", ""), _brief(err))
+    if r == "obs":
+        return "sort-contract", "TLC rejects the observed result (TraceContainers.tla): %s" % res["what"]
     if r == "mismatch":
         return "state", "state differs from the model: %s" % res["what"]
     if r == "alias":
         return "alias", "two live containers own the same memory (copy is not deep): %s" % res["what"]
     if r == "abort":
-        return "abort", "the library aborted on a valid call: %s" % err.strip()[-300:]
+        return "abort", "the library aborted on a valid call: %s" % (err.strip()[-300:] or "(glibc / abort() without a message)")
     if r == "signal":
         return "signal%d" % res.get("sig", 0), "killed by signal %d %s" % (res.get("sig", 0), res.get("what", ""))
     if r == "timeout":
@@ -373,19 +510,20 @@ def classify(res):
     return "exit%d" % res.get("rc", -1), "child exited with %d: %s" % (res.get("rc", -1), err[-300:])
 
 
-def replay_histories(ctx, rd, exe, histories, label="replay", parts=None):
+def replay_histories(ctx, rd, exe, histories, label="replay", parts=None, pals=None, env=None):
+    """-> ({hid: result line}, [observation events with 'h' = hid])"""
     parts = parts or max(1, min(JOBS, (len(histories) + 19) // 20))
     jobs = []
     for p in range(parts):
         sc = Script()
         ids = list(range(p, len(histories), parts))
         for hid in ids:
-            sc.history(hid, histories[hid])
+            sc.history(hid, histories[hid], pals[hid] if pals else "small")
         sp, op = os.path.join(rd, "%s-%d.script" % (label, p)), os.path.join(rd, "%s-%d.ndjson" % (label, p))
         open(sp, "w").write(sc.text())
-        jobs.append(([sp, op, 30], ids))
-    res = hrun.run_many(exe, [j[0] for j in jobs], timeout=3000, workers=JOBS)
-    out = {}
+        jobs.append(([sp, op, 60], ids))
+    res = hrun.run_many(exe, [j[0] for j in jobs], timeout=3000, workers=JOBS, env=env)
+    out, obs = {}, []
     for (args, ids), h in zip(jobs, res):
         lines = hrun.read_ndjson(args[1])
         if h.rc != 0 or len(lines) != len(ids):
@@ -394,102 +532,244 @@ def replay_histories(ctx, rd, exe, histories, label="replay", parts=None):
             if ln["res"] == "script":
                 raise InfraError("c14_replay rejected its script: %s" % ln.get("what"))
             out[ln["h"]] = ln
-    return out
+        obs += hrun.read_ndjson(args[1] + ".obs")
+        for f in (args[0], args[1], args[1] + ".obs"):
+            try:
+                os.remove(f)
+            except OSError:
+                pass
+    return out, obs
 
 
 def _is_size_case(st):
-    return st["op"]["rel"] in ("shorter", "longer", "zero", "diff-shape", "src-empty", "out") or st["op"]["oor"]
+    return st["op"]["rel"] in ("shorter", "longer", "zero", "diff-shape", "src-empty", "out", "tie-distinct", "tie-dup", "self") or st["op"]["oor"]
+
+
+SORT_OPS = {"MatrixSort", "MatrixReverseSort", "DVectorSort", "SortUIVector"}
+
+
+def validate_obs(events, max_rounds=8):
+    """TLC judges the observed sort results -> (list of rejected events, summed TLC counters, number validated)"""
+    rejected, agg = [], dict(distinct=0, generated=0, wall=0.0, runs=0)
+    ev = [dict(e="Reset")] + list(events)
+    if len(ev) == 1:
+        return rejected, agg, 0
+    for _ in range(max_rounds):
+        ok, n, r = tlc.validate_trace("TraceContainers", "Trace_Containers.cfg", ev, timeout=1200, xmx="3g")
+        agg["distinct"] += r.distinct; agg["generated"] += r.generated; agg["wall"] += r.wall; agg["runs"] += 1
+        if ok:
+            break
+        if n >= len(ev) or n == 0:
+            raise InfraError("TraceContainers rejects the observation trace at line %d of %d without a sort event to blame" % (n, len(ev)))
+        bad = ev[n]
+        rejected.append(bad)
+        # every further observation of the same routine on the same build would repeat the signature: drop them, keep judging the others
+        same = lambda e: e.get("e") == bad["e"] and e.get("kind") == bad.get("kind") and e.get("rev") == bad.get("rev") and e.get("b") == bad.get("b")
+        ev = [e for e in ev if not same(e)]
+    else:
+        raise InfraError("more than %d rejected sort observations of different routines in one chunk" % max_rounds)
+    return rejected, agg, len(events)
 
 
 class Tally:
     """what is kept of a replayed chunk once its histories are dropped"""
     def __init__(self):
-        self.opmix, self.relmix, self.gen_ops = collections.Counter(), collections.Counter(), collections.Counter()
+        self.opmix, self.relmix, self.gen_ops, self.classes = collections.Counter(), collections.Counter(), collections.Counter(), collections.Counter()
         self.cases = []          # (key, nontrivial, calls executed)
-        self.failures = []       # (step, hid, result line, history prefix, is_cleanup)
-        self.ok = self.aborts = self.rets = self.histories = self.calls_generated = 0
+        self.failures = []       # (step, hid, result line, history prefix, is_cleanup, build)
+        self.extras = []         # (signature, text)
+        self.ok = self.aborts = self.rets = self.histories = self.calls_generated = self.reuse = self.plain_calls = self.obs_n = 0
         self.samples = []
+        self.tlc = dict(distinct=0, generated=0, wall=0.0, runs=0)
+        self.obs_sample = {}
 
     def add(self, other):
-        self.opmix.update(other.opmix); self.relmix.update(other.relmix); self.gen_ops.update(other.gen_ops)
-        self.cases += other.cases; self.failures += other.failures; self.samples += other.samples
+        self.opmix.update(other.opmix); self.relmix.update(other.relmix); self.gen_ops.update(other.gen_ops); self.classes.update(other.classes)
+        self.cases += other.cases; self.failures += other.failures; self.samples += other.samples; self.extras += other.extras
         self.ok += other.ok; self.aborts += other.aborts; self.rets += other.rets
         self.histories += other.histories; self.calls_generated += other.calls_generated
+        self.reuse += other.reuse; self.plain_calls += other.plain_calls; self.obs_n += other.obs_n
+        for k in self.tlc:
+            self.tlc[k] += other.tlc[k]
+        for k, v in other.obs_sample.items():
+            self.obs_sample.setdefault(k, v)
 
 
-def summarise(histories, results, base=0):
-    t = Tally()
+def history_classes(steps, done, pal, cls):
+    """class tags of the executed calls: the tags TLC computed per call (cls), the palette, and the history-level K7 motifs"""
+    deleted, emptied = set(), set()
+    for st in steps[:done]:
+        op = st["op"]
+        name, a = op["name"], op["a"]
+        for t in st.get("cls", ()):
+            cls[t] += 1
+        if pal == "huge":
+            cls["K4:huge-values"] += 1
+        elif pal == "frac":
+            cls["K5:tenths"] += 1
+        fam = _family_of(name)
+        for fld, names in CREATES.items():
+            if name in names and fld in a and not op["oor"]:
+                f2 = "dv" if name in ("getMatrixRow", "getMatrixColumn") else fam
+                if (f2, a[fld]) in deleted:
+                    cls["K7:recreate-in-freed-slot"] += 1
+                    deleted.discard((f2, a[fld]))
+        if name.startswith("Del") and "x" in a:
+            deleted.add((fam, a["x"]))
+        for kind, p in st["post"].items():
+            for slot, v in p.items():
+                if not v.get("live"):
+                    emptied.discard((kind, slot))
+                    continue
+                size = (v["row"] * v["col"]) if kind == "mx" else len(v["m"] if kind == "tn" else v["d"])
+                if name in APPENDS and (kind, slot) in emptied:
+                    cls["K7:append-after-resize0"] += 1
+                if size == 0 and "Resize" in name:
+                    emptied.add((kind, slot))
+                elif size > 0 or "Resize" not in name:
+                    emptied.discard((kind, slot))
+
+
+def summarise(histories, results, pals, base=0, build_name="san", t=None, count_cases=True):
+    t = t or Tally()
     for hid, steps in enumerate(histories):
         res = results[hid]
         done = res["ops"]
-        t.histories += 1
-        t.calls_generated += len(steps)
-        for st in steps:
-            t.gen_ops[st["op"]["name"]] += 1
-        for st in steps[:done]:
-            t.opmix[st["op"]["name"]] += 1
-            if st["op"]["rel"] != "na":
-                t.relmix["%s:%s" % (st["op"]["name"], st["op"]["rel"])] += 1
-        key = hashlib.sha1(json.dumps([s["op"] for s in steps], sort_keys=True).encode()).hexdigest()[:16]
-        t.cases.append((key, any(_is_size_case(s) for s in steps[:done]), max(done, 1)))
-        t.aborts += res["oor_abort"]
-        t.rets += res["oor_ret"]
-        if res["res"] == "ok":
-            t.ok += 1
+        if count_cases:
+            t.histories += 1
+            t.calls_generated += len(steps)
+            for st in steps:
+                t.gen_ops[st["op"]["name"]] += 1
+            for st in steps[:done]:
+                t.opmix[st["op"]["name"]] += 1
+                if st["op"]["rel"] != "na":
+                    t.relmix["%s:%s" % (st["op"]["name"], st["op"]["rel"])] += 1
+            history_classes(steps, done, pals[hid], t.classes)
+            t.aborts += res["oor_abort"]
+            t.rets += res["oor_ret"]
+            if res["res"] == "ok":
+                t.ok += 1
         else:
+            t.plain_calls += done
+            t.reuse += res.get("reuse", 0)
+            if res.get("reuse", 0):
+                t.classes["K7:address-reuse"] += done
+        key = hashlib.sha1(json.dumps([s["op"] for s in steps] + [pals[hid], build_name], sort_keys=True).encode()).hexdigest()[:16]
+        t.cases.append((key, any(_is_size_case(s) for s in steps[:done]), max(done, 1)))
+        for x in res.get("extras", []):
+            opn = x.split("(")[0].split(" ")[0]
+            t.extras.append(("CONTAINER:%s:%s-values:return" % (opn, pals[hid]), "%s [history %d, %s palette, %s build]" % (x, base + hid, pals[hid], build_name)))
+        if res["res"] != "ok":
             step = res.get("step", 0)
             cleanup = res.get("rel") == "cleanup"
-            t.failures.append((step, base + hid, res, steps if cleanup else steps[:step], cleanup))
-    if histories:
-        t.samples.append(dict(history=base, calls=[dict(name=s["op"]["name"], rel=s["op"]["rel"], a=s["op"]["a"]) for s in histories[0][:6]]))
+            t.failures.append((step, base + hid, res, steps if cleanup else steps[:step], cleanup, build_name, pals[hid]))
+    if histories and count_cases:
+        t.samples.append(dict(history=base, palette=pals[0], calls=[dict(name=s["op"]["name"], rel=s["op"]["rel"], a=s["op"]["a"]) for s in histories[0][:6]]))
     return t
+
+
+def obs_failures(t, histories, pals, rejected, base, build_name):
+    for ev in rejected:
+        hid, step = ev["h"], ev["step"]
+        st = histories[hid][step - 1]
+        what = "%s of %s: before %s after %s" % (st["op"]["name"], json.dumps(st["op"]["a"], sort_keys=True), json.dumps(ev["pre"])[:300], json.dumps(ev["post"])[:300])
+        res = dict(res="obs", step=step, op=st["op"]["name"], rel=st["op"]["rel"], what=what)
+        t.failures.append((step, base + hid, res, histories[hid][:step], False, build_name, pals[hid]))
 
 
 def report(ctx, t):
     """turn the failures of a tally into violations (shortest prefix first, one per signature)"""
     for key, nontrivial, n in t.cases:
         ctx.case(key, nontrivial, n=n)
+    for tag, n in sorted(t.classes.items()):
+        ctx.cls(tag, n)
+    for sig, text in t.extras:
+        ctx.extra(sig, text)
     notjudged = nfail = 0
-    for step, hid, res, prefix, cleanup in sorted(t.failures, key=lambda f: (f[0], f[1])):
+    for step, hid, res, prefix, cleanup, build_name, pal in sorted(t.failures, key=lambda f: (f[0], f[1])):
         kind, text = classify(res)
+        if build_name == "plain" and (kind in ("abort", "hang") or kind.startswith("signal") or kind.startswith("exit")):
+            # without a sanitizer a heap corruption surfaces where glibc notices it, possibly calls after the one that caused it
+            kind += "@plain-build"
+            text += " [plain build: the call named here is where the damage surfaced, not necessarily the call that caused it]"
         if kind.startswith("ubsan:") and "null pointer passed as argument" in res.get("err", "") and res.get("op") in ("DVectorSort", "SortUIVector"):
             # qsort(NULL, 0, ...) on a vector made by init*: UBSan's nonnull-attribute check, no memory is touched - outside what C14 states
             notjudged += 1
             continue
-        nfail += 1
         sig = "CONTAINER:%s:%s:%s" % (res.get("op", "?"), res.get("rel", "?"), kind)
-        what = "history %d, call %d%s: %s(%s) [%s] - %s" % (
-            hid, step, " (deleting the remaining containers)" if cleanup else "", res.get("op"),
-            "" if cleanup or not prefix else json.dumps(prefix[-1]["op"]["a"], sort_keys=True), res.get("rel"), text)
-        ctx.violation(sig, what, dict(kind="history", history=prefix, failed_step=step, harness=dict(res=res["res"], what=res.get("what", ""))))
+        what = "history %d (%s palette, %s build), call %d%s: %s(%s) [%s] - %s" % (
+            hid, pal, build_name, step, " (deleting the remaining containers)" if cleanup else "", res.get("op"),
+            "" if cleanup or not prefix else json.dumps(prefix[-1]["op"]["a"], sort_keys=True)[:400], res.get("rel"), text)
+        if (res.get("rel") == "self" and res.get("op") in SELF_COPY_OPS) or (res.get("op") in EXTRA_STATE_OPS and kind == "state") or res.get("op") in OUT_OF_STATEMENT_OPS:
+            # modelled exactly, but not a clause of C14's statement (a copy of a container onto itself has no documented meaning; tokenisation is string parsing)
+            ctx.extra(sig, what)
+            continue
+        nfail += 1
+        ctx.violation(sig, what, dict(kind="history", history=prefix, palette=pal, build=build_name, failed_step=step, harness=dict(res=res["res"], what=res.get("what", ""))))
     if notjudged:
         ctx.cov["not_judged"] = dict(zero_length_qsort_on_null_data=notjudged)
     return nfail
 
 
-def binding_selftest(ctx, rd, exe, histories, results):
-    """corrupt one expected cell of a history that replays cleanly: the harness must report a state mismatch at that call"""
-    import copy
+def binding_selftest(ctx, rd, exe, histories, results, pals, obs):
+    """corrupt one expected cell of a history that replays cleanly: the harness must report a state mismatch at that call;
+    corrupt one field of a recorded SortMx and SortVec observation: TLC must reject the trace"""
+    done = False
     for hid, h in enumerate(histories):
-        if results[hid]["res"] != "ok":
+        if results[hid]["res"] != "ok" or done:
             continue
         for n, st in enumerate(h):
             for kind in ("dv", "uv", "iv"):
                 p = st["post"].get(kind)
-                if isinstance(p, dict):
+                if isinstance(p, dict) and not done:
                     for slot, v in p.items():
-                        if v["live"] and isinstance(v["d"], list) and v["d"]:
+                        if v["live"] and isinstance(v["d"], list) and v["d"] and 0 <= v["d"][-1] < 3:
                             bad = copy.deepcopy(h)
                             bad[n]["post"][kind][slot]["d"][-1] += 1
-                            r = replay_histories(ctx, rd, exe, [bad], label="selftest", parts=1)[0]
+                            r = replay_histories(ctx, rd, exe, [bad], label="selftest", parts=1, pals=[pals[hid]])[0][0]
                             if r["res"] != "mismatch" or r["step"] != n + 1:
                                 raise InfraError("binding self-test: a corrupted expected cell at call %d was not reported (%s)" % (n + 1, r))
-                            ctx.steps["binding_selftest"] = dict(history=hid, call=n + 1, corrupted="%s[%s] last cell +1" % (kind, slot), reported=r["what"])
-                            return
-    if ctx.violations:
-        ctx.note("binding self-test skipped: no history of the first chunk replayed cleanly")
-        return
-    raise InfraError("binding self-test: no clean history with a non-empty vector to corrupt")
+                            ctx.steps["binding_selftest"] = dict(history=hid, call=n + 1, palette=pals[hid], corrupted="%s[%s] last cell +1" % (kind, slot), reported=r["what"])
+                            done = True
+                            break
+    if not done:
+        if ctx.violations:
+            ctx.note("binding self-test skipped: no history of the first chunk replayed cleanly")
+        else:
+            raise InfraError("binding self-test: no clean history with a non-empty vector to corrupt")
+    for kind in ("SortMx", "SortVec"):
+        ev = obs.get(kind)
+        if ev is None:
+            if ctx.violations:
+                continue
+            raise InfraError("binding self-test: no %s observation was recorded" % kind)
+        ok, n, r = tlc.validate_trace("TraceContainers", "Trace_Containers.cfg", [dict(e="Reset"), ev])
+        if not ok:
+            continue        # this observation is itself one of the reported violations
+        bad = copy.deepcopy(ev)
+        if kind == "SortMx":
+            bad["post"][0][0] = bad["post"][0][0] + 7
+        else:
+            bad["post"] = bad["post"][:-1] + [bad["post"][-1] - 9]
+        ok, n, r = tlc.validate_trace("TraceContainers", "Trace_Containers.cfg", [dict(e="Reset"), bad])
+        if ok:
+            raise InfraError("binding lost: a corrupted %s observation is accepted by TraceContainers" % kind)
+        ctx.steps["binding_selftest_" + kind] = dict(rejected_at=n, corrupted="one cell of post")
+
+
+REQUIRED_CLASSES = {   # class -> (family, MaxDim) of the generator run that tops it up when the planned runs did not reach it
+    "K1:wide": ("mx", 5), "K1:tall": ("mx", 5), "K1:square": ("mx", 5), "K1:single-row": ("mx", 5), "K1:single-col": ("mx", 5), "K1:rows0": ("mx", 5), "K1:cols0": ("mx", 5),
+    "K1:n=p+-1": ("mx", 5), "K1:append-row-onto-cols0": ("mx", 5), "K1:append-col-onto-rows0": ("mx", 5), "K1:layers-differ": ("tn", 5), "K1:delete-first": ("mx", 5), "K1:delete-last": ("mx", 5), "K1:delete-only": ("mx", 5),
+    "K2:size31|K2:size32|K2:size33": ("dv", 66), "K2:size63|K2:size64|K2:size65": ("dv", 66), "K2:rows31|K2:rows32|K2:rows33|K2:cols31|K2:cols32|K2:cols33": ("mx", 66),
+    "K2:rows63|K2:rows64|K2:rows65|K2:cols63|K2:cols64|K2:cols65": ("mx", 66), "K2:string-256": ("sv", 5), "K2:oor-mid-range": ("mx", 5), "K4:oor-far-index": ("mx", 5),
+    "K4:huge-values": ("mx", 5), "K5:tenths": ("dv", 5), "K7:extend-self": ("dv", 5), "K7:operand-inside-destination": ("tn", 5), "K7:recreate-in-freed-slot": ("dv", 5),
+    "K7:append-after-resize0": ("dv", 5), "K7:address-reuse": ("dv", 5), "K8:sort-tie-distinct": ("mx", 5), "K8:sort-tie-dup": ("mx", 5), "K8:duplicate-rows": ("mx", 5),
+    "K8:empty-string": ("sv", 5),
+}
+
+
+def _missing_classes(classes):
+    return [k for k in REQUIRED_CLASSES if not any(classes.get(a, 0) > 0 for a in k.split("|"))]
 
 
 def run(ctx):
@@ -497,79 +777,132 @@ def run(ctx):
         "TLC explores Containers.tla exhaustively only within the stated constants (pool 2, dims/values/depth per family in coverage.steps)",
         "the implementation is bound to the model by replaying sampled TLC-generated histories (counts in coverage.steps.gen), not exhaustively",
         "ASan/UBSan is the monitor for reads/writes outside owned memory, use after free and double free; the harness compares liveness, dims, every cell and pointer ownership after every call",
+        "cell values are value codes in the specification; the harness maps them through a strictly increasing palette with 0 -> 0 (small: identity; huge: 1, 2^31+5, 2^32+1 / 65537, INT_MAX; frac: tenths), so order, equality and zero fill are preserved",
         "out-of-range accessors are accepted when they return with the state unchanged (NULL for getMatrixRow/getMatrixColumn, any value for the scalar getters) or abort() cleanly; a sanitizer report or a changed state is a violation",
-        "operations outside the alphabet (coverage.excluded_ops) are not judged",
+        "the order of rows with equal sort keys is not part of the sort contract; TLC judges every observed sort result (permutation + ordered key), and the replay continues from the model's representative",
+        "operations outside the alphabet (coverage.excluded_ops) are not judged; self-copies, ValInMatrix / MatrixColumnMinMax return values and SplitString tokenisation are reported as EXTRA findings only",
     ]
     ctx.cov["excluded_ops"] = EXCLUDED_OPS
     rd = tlc.rundir()
     try:
         lib = build.build_lib("san")
         exe = build.build_harness("c14", ["c14_replay.c"], lib)
-        model_check(ctx, rd)
+        plib = build.build_lib("plain")
+        pexe = build.build_harness("c14", ["c14_replay.c"], plib)
         plan = _gen_plan(ctx)
         offsets, o = [], 0
-        for kinds, num, maxdim in plan:
+        for kinds, num, maxdim, mode in plan:
             offsets.append(o)
             o += num
         first = {}
 
         def chunk(i):
-            kinds, num, maxdim = plan[i]
+            kinds, num, maxdim, mode = plan[i]
             r, hs = gen_one(ctx, rd, i, kinds, num, maxdim)
-            results = replay_histories(ctx, rd, exe, hs, label="c%d" % i, parts=1)
+            pals = [palette_of(offsets[i] + h, hs[h], mode) for h in range(len(hs))]
+            results, obs = replay_histories(ctx, rd, exe, hs, label="c%d" % i, parts=1, pals=pals)
+            t = summarise(hs, results, pals, offsets[i], "san")
+            presults, pobs = replay_histories(ctx, rd, pexe, hs, label="p%d" % i, parts=1, pals=pals, env=PLAIN_ENV)
+            summarise(hs, presults, pals, offsets[i], "plain", t=t, count_cases=False)
+            for ev in obs:
+                ev["b"] = "san"
+            for ev in pobs:
+                ev["b"] = "plain"
+            rej, agg, n = validate_obs(obs + pobs)          # one TLC run per chunk judges the sort results observed on both builds
+            for bname in ("san", "plain"):
+                obs_failures(t, hs, pals, [e for e in rej if e["b"] == bname], offsets[i], bname)
+            t.obs_n += n
+            for k in t.tlc:
+                t.tlc[k] += agg[k]
+            for ev in obs:
+                if ev["post"] and (ev["e"] == "SortVec" or ev["post"][0]):      # the binding self-test needs a cell to corrupt
+                    t.obs_sample.setdefault(ev["e"], ev)
             if i == 0:
-                first["h"], first["r"] = hs, results
-            return summarise(hs, results, offsets[i])
+                first["h"], first["r"], first["p"] = hs, results, pals
+            return t
 
         total = Tally()
-        with ThreadPoolExecutor(max(1, min(len(plan) + 1, JOBS))) as ex:
+        with ThreadPoolExecutor(max(1, min(len(plan) + 2, JOBS))) as ex:
+            mc = ex.submit(model_check, ctx, rd)
             ref = ex.submit(refinement_run, ctx, rd)
             for t in ex.map(chunk, range(len(plan))):
                 total.add(t)
             rr = ref.result()
+            mc.result()
         ctx.steps["gen_refines_next"] = dict(behaviours=10 if ctx.quick else 100, depth=40, wall_s=round(rr.wall, 2), pool=3, MaxDim=3)
-        ctx.steps["gen"] = dict(runs=len(plan), histories=total.histories, calls=total.calls_generated, depth=40, pool=4,
-                                plan=[dict(kinds=k, histories=n, MaxDim=d) for k, n, d in plan])
         ctx.cov["transitions"] += total.calls_generated
-        missing = [o_ for o_ in ALPHABET if total.gen_ops[o_] == 0]
         topups = 0
-        while missing and topups < 8:
-            # alphabet coverage must not depend on seed luck: draw further histories (fresh generator seed, family of the missing call)
-            # until every operation of the alphabet has been executed at least once; all of them are replayed and judged like the others
+        while topups < 10:
+            # alphabet and class coverage must not depend on seed luck: draw further histories (fresh generator seed, family of the missing
+            # call / class) until every operation of the alphabet and every required class has been executed; all are replayed and judged like the others
+            missing = [o_ for o_ in ALPHABET if total.gen_ops[o_] == 0]
+            mcls = _missing_classes(total.classes)
+            if not missing and not mcls:
+                break
+            if ctx.violations or total.failures:
+                break           # a failing tree ends histories early: coverage of the remaining calls is not the point any more
             topups += 1
-            fam = _family_of(missing[0])
+            if missing:
+                fam, md, mode = _family_of(missing[0]), 5, "small"
+            else:
+                fam, md = REQUIRED_CLASSES[mcls[0]]
+                mode = "big" if md > 16 else "small"
             j = len(plan)
-            plan.append(([fam] if fam else ALL_KINDS, 40, 5))
+            plan.append(([fam] + SW if fam else ALL_KINDS + SW, 40, md, mode))
             offsets.append(o)
             o += 40
             total.add(chunk(j))
-            missing = [o_ for o_ in ALPHABET if total.gen_ops[o_] == 0]
         if topups:
             ctx.steps["gen_topups"] = topups
-        if missing:
-            raise InfraError("generated histories never call: %s (after %d top-up rounds)" % (missing, topups))
-        ctx.note("generated %d histories / %d calls over %d operations of the alphabet" % (total.histories, total.calls_generated, len(ALPHABET)))
+        missing = [o_ for o_ in ALPHABET if total.gen_ops[o_] == 0]
+        mcls = _missing_classes(total.classes)
+        if (missing or mcls) and not total.failures:
+            raise InfraError("generated histories never reach: calls %s classes %s (after %d top-up rounds)" % (missing, mcls, topups))
+        ctx.steps["gen"] = dict(runs=len(plan), histories=total.histories, calls=total.calls_generated, depth=40, pool=4,
+                                plan=[dict(kinds=k, histories=n, MaxDim=d, mode=m) for k, n, d, m in plan])
+        ctx.steps["sort_observations"] = dict(events=total.obs_n, tlc_runs=total.tlc["runs"], distinct=total.tlc["distinct"], generated=total.tlc["generated"], wall_s=round(total.tlc["wall"], 2))
+        ctx.cov["states"] += total.tlc["distinct"]
+        ctx.cov["transitions"] += total.tlc["generated"]
+        ctx.note("generated %d histories / %d calls over %d operations of the alphabet; %d sort observations validated by TLC" % (total.histories, total.calls_generated, len(ALPHABET), total.obs_n))
         nfail = report(ctx, total)
         okh, opmix, relmix, aborts, rets = total.ok, total.opmix, total.relmix, total.aborts, total.rets
         ctx.traces(okh)
-        binding_selftest(ctx, rd, exe, first["h"], first["r"])
-        ctx.cov["rule"] = ("a case is one generated history (40 calls over pools of 4 containers per kind) replayed call by call against the ASan/UBSan build; "
-                           "evaluations = calls executed and compared with the model's post-state; non-trivial = the history contains at least one call whose operand "
-                           "is shorter/longer/empty relative to the current dimension, a copy onto another shape, or an out-of-range accessor; distinct by call sequence")
+        binding_selftest(ctx, rd, exe, first["h"], first["r"], first["p"], total.obs_sample)
+        ctx.cov["rule"] = ("a case is one generated history (40 calls over pools of 4 containers per kind, one value palette) replayed call by call against one build "
+                           "(ASan/UBSan, or plain gcc under MALLOC_PERTURB_); evaluations = calls executed and compared with the model's post-state; non-trivial = the "
+                           "history contains at least one call whose operand is shorter/longer/empty relative to the current dimension, a copy onto another shape, a sort "
+                           "with tied keys, or an out-of-range accessor; distinct by call sequence, palette and build")
         ctx.cov["exhaustive"] = False
         ctx.cov["alphabet"] = ALPHABET
         ctx.cov["op_mix"] = dict(opmix)
         ctx.cov["size_relations"] = dict(relmix)
         ctx.cov["out_of_range_accessors"] = dict(clean_abort=aborts, returned_unchanged=rets)
         ctx.cov["histories"] = dict(replayed=total.histories, completed=okh, failed=nfail)
+        ctx.cov["plain_build"] = dict(calls=total.plain_calls, creations_at_a_freed_address=total.reuse, env=PLAIN_ENV)
+        ctx.cov["class_table"] = {
+            "K1": "emitted: tall / wide / square / n=p+-1 / single row / single column / zero rows / zero columns / empty, tensor layers of different shapes, delete at first / last / only index",
+            "K2": "emitted: sizes 3..5, 7..9, 15..17, 31..33, 63..65 (vectors, matrix rows / columns, list elements), strings of 255..257 characters, mid-range out-of-range indices",
+            "K3": "outside the quantifier: container calls do no arithmetic on cell values",
+            "K4": "emitted: huge palette (2^31+5, 2^32+1, 65537, INT_MAX, signed), far out-of-range indices ((size_t)-1, 2^63, 2^63+1, 2^32)",
+            "K5": "emitted: tenths palette (0.1, 0.2, 0.3: not representable)",
+            "K6": "not applicable: no container routine reaches an MT_* kernel",
+            "K7": "emitted: 40 calls in one process with slots deleted and re-created, append after resize to 0, Extend(a, a), an own layer / element as the operand, plain build with freed addresses reused at once (measured), self-copies (EXTRA only)",
+            "K8": "emitted: sort keys tied between identical and between different rows, duplicate rows, empty strings, constant vectors",
+            "K9": "outside the statement: the property does not mention the missing-value code",
+            "K10": "not applicable: no label alphabets",
+        }
         for smp in total.samples[:4]:
             ctx.sample(smp, 4)
         if sum(opmix.values()) == 0:
             raise InfraError("no call was replayed")
-        if aborts + rets == 0:
+        if aborts + rets == 0 and not nfail:
             raise InfraError("no out-of-range accessor was exercised")
-        ctx.note("replayed %d histories (%d completed), %d calls, out-of-range accessors: %d clean aborts, %d safe returns"
-                 % (total.histories, okh, sum(opmix.values()), aborts, rets))
+        if total.reuse == 0 and not nfail:
+            raise InfraError("the plain build never handed out a freed address again: the K7 address-reuse pass is vacuous")
+        if total.obs_n == 0 and not nfail:
+            raise InfraError("no sort observation was recorded")
+        ctx.note("replayed %d histories (%d completed) on both builds, %d + %d calls, out-of-range accessors: %d clean aborts, %d safe returns; plain build: %d creations at a freed address"
+                 % (total.histories, okh, sum(opmix.values()), total.plain_calls, aborts, rets, total.reuse))
     finally:
         shutil.rmtree(rd, ignore_errors=True)
 
@@ -580,13 +913,19 @@ def replay(ctx, body):
         return run(ctx)
     rd = tlc.rundir()
     try:
-        lib = build.build_lib("san")
+        bname = case.get("build", "san")
+        lib = build.build_lib(bname)
         exe = build.build_harness("c14", ["c14_replay.c"], lib)
         histories = [case["history"]]
-        results = replay_histories(ctx, rd, exe, histories, label="stored", parts=1)
-        t = summarise(histories, results)
+        pals = [case.get("palette", "small")]
+        results, obs = replay_histories(ctx, rd, exe, histories, label="stored", parts=1, pals=pals, env=PLAIN_ENV if bname == "plain" else None)
+        t = summarise(histories, results, pals, 0, bname)
+        rej, agg, n = validate_obs(obs)
+        obs_failures(t, histories, pals, rej, 0, bname)
+        ctx.cov["states"] += agg["distinct"]
+        ctx.cov["transitions"] += agg["generated"]
         report(ctx, t)
-        okh = t.ok
+        okh = t.ok if not rej else 0
         ctx.traces(okh)
         ctx.cov["rule"] = "re-execution of one stored history prefix against the current tree"
         ctx.sample(dict(calls=[s["op"]["name"] for s in histories[0]][-8:]))
